@@ -63,16 +63,17 @@ STRUCT = {
     "SPAN-EMPTY": RI.rule_span_empty,
     "SPAN-IMPL": RI.rule_span_impl,
     "ALLOC-INV": RHP.rule_alloc_inv,
+    "OVERRIDE-INV": RHP.rule_override_inv,
     "STREAM": RI.rule_stream,
     "INPUT-MISC": RI.rule_input_misc,
 }
 
 # "K" = the contract automata that serve this property (spec/contract_map.py)
 PROP_RULES = {
-    "C01": ["K", "D:POISON", "SEQ-PROV", "GRAMMAR", "ENTRY", "ENTRY-SIB", "CLONE-FIELDS", "MODE-PAIR", "NO-BACKTRACK", "HELPER-PROV", "READER-SIB", "INPUT-MISC"],
+    "C01": ["K", "D:POISON", "SEQ-PROV", "GRAMMAR", "ENTRY", "ENTRY-SIB", "CLONE-FIELDS", "MODE-PAIR", "NO-BACKTRACK", "HELPER-PROV", "READER-SIB", "INPUT-MISC", "OVERRIDE-INV"],
     "C02": ["K", "D:POISON", "BUILDER-PROV", "GRAMMAR", "CLONE-FIELDS", "ENTRY-SIB", "MODE-PAIR", "HELPER-PROV", "ALLOC-INV"],
-    "C03": ["ENTRY", "K", "STREAM", "D:POISON", "MODE-PURE", "GRAMMAR", "ENTRY-SIB", "SUB-INPUT", "D:KEEP*", "HOOKS-WRITERS", "INPUT-MISC", "MODE-PAIR", "HELPER-PROV"],
-    "C04": ["MODE-PAIR", "MODE-PURE", "K", "D:POISON", "ENTRY-SIB"],
+    "C03": ["ENTRY", "K", "STREAM", "D:POISON", "MODE-PURE", "GRAMMAR", "ENTRY-SIB", "SUB-INPUT", "D:KEEP*", "HOOKS-WRITERS", "INPUT-MISC", "MODE-PAIR", "HELPER-PROV", "OVERRIDE-INV"],
+    "C04": ["MODE-PAIR", "MODE-PURE", "K", "D:POISON", "ENTRY-SIB", "OVERRIDE-INV"],
     "C05": ["D:POISON", "D:KEEP", "D:LIFO", "HOOKS-SAVE-REWIND", "HOOKS-WRITERS", "MODE-PURE", "SUB-INPUT", "K", "MODE-PAIR", "NO-BACKTRACK", "HELPER-PROV", "ENTRY", "ENTRY-SIB"],
     "C07": ["K", "SPAN-PROV", "SPAN-EMPTY", "SPAN-IMPL", "READER-SIB", "INPUT-MISC", "GRAMMAR", "HELPER-PROV"],
     "C10": ["READER-SIB", "SPAN-PROV", "SPAN-EMPTY", "SPAN-IMPL", "STREAM", "INPUT-MISC", "CHAR-SIB", "CHAR-PROV", "GRAMMAR", "HELPER-PROV"],
@@ -80,8 +81,8 @@ PROP_RULES = {
     "C08": ["K", "D:POISON", "D:ALT-LINEAR", "D:PFAIL", "MODE-PURE", "SUB-INPUT", "GRAMMAR", "D:KEEP*", "D:LIFO*", "HOOKS-SAVE-REWIND", "MODE-PAIR", "NO-BACKTRACK", "ENTRY", "ENTRY-SIB"],
     "C09": ["K", "D:POISON", "RECURSE", "AFFINE", "GRAMMAR", "MODE-PAIR"],
     "C11": ["K", "D:ALT-LINEAR", "D:ALT-POS", "D:PFAIL", "MEMO-KEY", "MEMO-WRITERS", "GRAMMAR", "MODE-PAIR", "NO-BACKTRACK", "SUB-INPUT", "ERR-PROV"],
-    "C12": ["RECURSE", "ONCE", "CLONE-FIELDS", "K", "GRAMMAR", "MODE-PAIR", "HELPER-PROV"],
-    "C13": ["FREEZE", "STATICS", "OWN-STATE", "CLONE-FIELDS", "MODE-PAIR", "K", "NO-BACKTRACK", "HELPER-PROV"],
+    "C12": ["RECURSE", "ONCE", "CLONE-FIELDS", "K", "GRAMMAR", "MODE-PAIR", "HELPER-PROV", "OVERRIDE-INV"],
+    "C13": ["FREEZE", "STATICS", "OWN-STATE", "CLONE-FIELDS", "MODE-PAIR", "K", "NO-BACKTRACK", "HELPER-PROV", "OVERRIDE-INV"],
     "C14": ["CHAR-SIB", "CHAR-PROV", "REGEX-ANCHOR", "K", "HOOKS-TOKEN", "SEQ-PROV", "MODE-PURE", "GRAMMAR", "HELPER-PROV", "BUILDER-PROV"],
     "C15": ["K", "SUB-INPUT", "MODE-PAIR", "BUILDER-PROV", "GRAMMAR", "HELPER-PROV"],
     "C16": ["K", "SUB-INPUT", "D:ALT-LINEAR", "D:PFAIL", "SPAN-PROV", "SPAN-EMPTY", "SPAN-IMPL", "READER-SIB", "GRAMMAR", "MODE-PAIR", "D:POISON*", "D:KEEP*", "D:LIFO*", "MODE-PURE"],
@@ -137,9 +138,13 @@ def eval_rules(names, config="all", pid=None):
 
 def make_prop(pid):
     def run(tier):
+        # quick tier: every stable feature switched on, and the default feature set (code under `cfg(not(feature = ..))`, e.g. the
+        # non-memoization layout of InputRef, exists only there); the two extractions run concurrently and are cached
+        import thorough
+        thorough.prefetch(["all", "default"])
         results = eval_rules(PROP_RULES[pid], "all", pid)
+        results.extend(thorough.on_config(pid, PROP_RULES[pid], "default"))
         if tier == "thorough":
-            import thorough
             import report
             known = report.load_known()[0].get(pid, {})
             clean = not any(v.key not in known for r in results for v in r.violations) and not any(r.errors for r in results)
